@@ -290,9 +290,15 @@ def configs(tier, seed):
     cfgs = []
     depth = 2 if tier == "quick" else 3
     for spec, _ in cw.SYSTEM_SPECS:
-        for conv in cw.CONVS:
-            cfgs.append({"mode": "bfs", "spec": spec, "conv": conv, "d": 2, "depth": depth,
-                         "seed": seed})
+        for conv in cw.CONVS + cw.CONVS_MIXED:
+            if conv == "mixed_mid" and spec != "softabs_riemannian":
+                continue
+            if conv == "mixed_top" and not (set(cw.methods_of(dict(cw.SYSTEM_SPECS)[spec]))
+                                            & {"mhp_constr", "mtp_neg_log_dens",
+                                               "vjp_metric_func"}):
+                continue
+            cfgs.append({"mode": "bfs", "spec": spec, "conv": conv, "d": 2,
+                         "depth": 2 if conv in cw.CONVS_MIXED else depth, "seed": seed})
     if tier == "thorough":
         for spec in ("gaussian", "constrained_gram", "softabs_riemannian"):
             cfgs.append({"mode": "bfs", "spec": spec, "conv": "with_value", "d": 3, "depth": 2,
